@@ -1,178 +1,114 @@
-"""C16 - HTTPHeaderDict storage discipline (narrow claim: case-insensitive keys, no shared or leaked value lists, fresh results)."""
+"""C16 - HTTPHeaderDict is a case-insensitive, order-preserving multimap.
+
+R1-R4 are the storage discipline (lower-cased keys, fresh lists, fresh results, inserts through add()), decided on the
+effect rows of *every* method of the class; R5-R9 (c16_effects.py) compare each method's rows with the reference multimap."""
 from __future__ import annotations
 
 import ast
 
 from .. import astq
 from ..model import AnalysisError
+from ..terms import T, destruct, norm, subterms
 
 COL = "urllib3._collections"
 HD = f"{COL}.HTTPHeaderDict"
+FRESH = ("list", "copy", "listcomp", "slice", "sorted", "add")
 
 
-def _storage_field(m):
-    init = m.method(HD, "__init__")
-    for n in astq.walk_fn(init.node):
-        if isinstance(n, ast.Assign) and astq.is_self_attr(n.targets[0]) and isinstance(n.value, (ast.Dict, ast.Call)):
-            if isinstance(n.value, ast.Dict) or astq.call_text(n.value) in ("dict", "OrderedDict"):
-                return n.targets[0].attr
-    raise AnalysisError("HTTPHeaderDict storage field not found")
-
-
-def _lower_derived(fn_node, expr, depth=4):
-    """Is `expr` (a key expression) derived from <something>.lower()?"""
-    if isinstance(expr, ast.Call) and isinstance(expr.func, ast.Attribute) and expr.func.attr == "lower":
+def _fresh(t):
+    """does the term denote a list object built on the spot (a display, a copy, a slice, a comprehension, a concatenation)?"""
+    op, a = destruct(norm(t))
+    if op in ("list", "copy", "listcomp", "sorted"):
         return True
-    if isinstance(expr, ast.Name) and depth > 0:
-        vals = astq.assigned_values(fn_node, expr.id)
-        return bool(vals) and all(_lower_derived(fn_node, v, depth - 1) for v in vals)
-    return False
-
-
-def _fresh_list(expr):
-    """Expression builds a new list object in this statement."""
-    if isinstance(expr, ast.List):
+    if op == "slice":
         return True
-    if isinstance(expr, ast.ListComp):
-        return True
-    if isinstance(expr, ast.Call) and astq.call_text(expr) == "list":
-        return True
-    if isinstance(expr, ast.Subscript) and isinstance(expr.slice, ast.Slice):
-        return True
-    if isinstance(expr, ast.BinOp) and isinstance(expr.op, ast.Add):
-        return _fresh_list(expr.left) or _fresh_list(expr.right)
+    if op == "add" and len(a) == 2:
+        return _fresh(a[0]) or _fresh(a[1])
     return False
 
 
 def run(ctx):
+    from . import c16_effects as fx
+
     m = ctx.model
     ctx.assume("A5")
-    ctx.decline("equivalence of arbitrary operation sequences with a reference multimap (iteration order, casing drift, combine semantics, equality) - that is model-based testing territory; only the storage discipline below is decided")
+    ctx.decline("equivalence of arbitrary operation *sequences* with a reference multimap as such; decided instead: every method's effect table against the reference multimap's (R5-R9), which gives the sequences by induction, and the storage discipline (R1-R4)")
     cls = m.cls(HD)
-    sf = _storage_field(m)
-
-    R1 = ctx.rule("C16-R1", "every access to the storage dict uses a lower-cased key", "E6")
-    R2 = ctx.rule("C16-R2", "value lists are never shared between instances nor handed out: every list stored is built in that statement, copies build per-key fresh lists, no method returns a stored list itself", "E6 escape")
-    R3 = ctx.rule("C16-R3", "copy / | / reversed | return a newly built instance, |= returns self", "E6")
-    R4 = ctx.rule("C16-R4", "bulk mutators (extend, update-style constructors, |, |=) insert through add() so that existing values are kept, and item assignment replaces", "E8 who-may-call")
-
-    # ---------------- R1
-    n = 0
+    sf = fx.storage_field(m)
+    R1 = ctx.rule("C16-R1", "every access to the storage dict uses a lower-cased key", "E10 effect rows of every method")
+    R2 = ctx.rule("C16-R2", "value lists are never shared between instances nor handed out: every list stored is built on the spot, another instance's storage is only read (never stored into, never mutated), no method returns or yields a stored list itself", "E10 effect rows of every method")
+    R3 = ctx.rule("C16-R3", "copy / | / reversed | return a newly built instance, |= returns self", "E10 effect rows")
+    R4 = ctx.rule("C16-R4", "bulk mutators (extend, constructors, |, |=) insert through add() / extend() so that existing values are kept, and item assignment replaces", "E10 effect rows")
+    n_keyed = n_store = 0
     for name, fi in sorted(cls.methods.items()):
-        for node in astq.walk_fn(fi.node):
-            key = None
-            what = None
-            if isinstance(node, ast.Subscript) and astq.is_self_attr(node.value, sf):
-                key, what = node.slice, "subscript"
-            elif isinstance(node, ast.Compare) and len(node.ops) == 1 and isinstance(node.ops[0], (ast.In, ast.NotIn)) and astq.is_self_attr(node.comparators[0], sf):
-                key, what = node.left, "membership"
-            elif isinstance(node, ast.Call) and isinstance(node.func, ast.Attribute) and astq.is_self_attr(node.func.value, sf) \
-                    and node.func.attr in ("setdefault", "pop", "get", "__getitem__", "__contains__", "__delitem__", "__setitem__") and node.args:
-                key, what = node.args[0], node.func.attr
-            if key is None:
-                continue
-            n += 1
-            ok = _lower_derived(fi.node, key)
-            ctx.ob(R1, fi.qual, f"{what} `{astq.text(node)[:60]}`", ok,
-                   "" if ok else "the storage is addressed with a key that was not lower-cased: lookups under another casing miss it", node=node)
-    ctx.sites(R1, n, 8, "keyed storage accesses")
-
-    # ---------------- R2
-    n = 0
-    for name, fi in sorted(cls.methods.items()):
-        for node in astq.walk_fn(fi.node):
-            # stores into the storage
-            if isinstance(node, ast.Assign) and isinstance(node.targets[0], ast.Subscript) and astq.is_self_attr(node.targets[0].value, sf):
-                n += 1
-                srcs = astq.sources_of(fi.node, node.value) if isinstance(node.value, ast.Name) else [node.value]
-                ok = bool(srcs) and all(_fresh_list(s_) for s_ in srcs)
-                ctx.ob(R2, fi.qual, f"store `{astq.text(node)[:70]}`", ok,
-                       "" if ok else "a list object that exists elsewhere is stored: two header dicts (or a caller) would share and mutate it", node=node)
-            if isinstance(node, ast.Call) and isinstance(node.func, ast.Attribute) and astq.is_self_attr(node.func.value, sf) and node.func.attr == "setdefault" and len(node.args) > 1:
-                n += 1
-                srcs = astq.sources_of(fi.node, node.args[1])
-                ok = all(_fresh_list(s) for s in srcs) and srcs
-                ctx.ob(R2, fi.qual, f"store `{astq.text(node)[:70]}`", ok, "" if ok else "setdefault stores a list that may be shared", node=node)
-            # foreign storage: clone._container[...] = ... / other._container reads
-            if isinstance(node, ast.Attribute) and node.attr == sf and not astq.is_self_attr(node):
-                ctx.ob(R2, fi.qual, f"foreign storage access `{astq.text(astq.stmt_of(node))[:70]}`", False,
-                       "another instance's storage is touched directly: its lists can leak into this instance", node=node)
-            # returns / yields of a stored list
-            if isinstance(node, (ast.Return, ast.Yield)) and node.value is not None:
-                v = node.value
-                vals = [v] + (list(v.elts) if isinstance(v, ast.Tuple) else [])
-                for x in vals:
-                    leak = False
-                    if isinstance(x, ast.Subscript) and astq.is_self_attr(x.value, sf):
-                        leak = True
-                    if isinstance(x, ast.Name):
-                        for s in astq.sources_of(fi.node, x):
-                            if isinstance(s, ast.Subscript) and astq.is_self_attr(s.value, sf):
-                                leak = True
-                            if isinstance(s, ast.Call) and isinstance(s.func, ast.Attribute) and astq.is_self_attr(s.func.value, sf) and s.func.attr in ("get", "setdefault", "pop", "values", "items"):
-                                leak = True
-                    if leak:
-                        ctx.ob(R2, fi.qual, f"`{astq.text(node)[:60]}`", False, "a stored list is handed to the caller, who can mutate the header dict through it", node=node)
-    ctx.sites(R2, n, 3, "stores into the storage dict")
-    cf = m.method(HD, "_copy_from")
-    stores = [x for x in astq.walk_fn(cf.node) if isinstance(x, ast.Assign) and isinstance(x.targets[0], ast.Subscript) and astq.is_self_attr(x.targets[0].value, sf)]
-    ctx.sites(R2, len(stores), 1, "stores in _copy_from")
-    for sn in stores:
-        in_loop = astq.enclosing(sn, ast.For) is not None
-        ctx.ob(R2, cf.qual, "copy builds one fresh list per key", in_loop and _fresh_list(sn.value), astq.text(sn), node=sn)
-
-    # ---------------- R3
-    for name, fresh in (("copy", True), ("__or__", True), ("__ror__", True), ("__ior__", False)):
-        fi = m.method(HD, name)
-        rets = [r for r in astq.walk_fn(fi.node) if isinstance(r, ast.Return) and r.value is not None and astq.text(r.value) != "NotImplemented"]
-        ctx.sites(R3, len(rets), 1, f"returns of {name}")
-        for r in rets:
-            if fresh:
-                srcs = astq.sources_of(fi.node, r.value)
-                ok = bool(srcs) and all(isinstance(s, ast.Call) and (astq.call_text(s) in ("type(self)", "self.copy", "HTTPHeaderDict", "self.__class__")) for s in srcs)
-                why = "the result is (or may be) an existing object: mutating the result would change its source"
-            else:
-                ok = astq.text(r.value) == "self"
-                why = "in-place union must return self"
-            ctx.ob(R3, fi.qual, f"`{astq.text(r)}`", ok, "" if ok else why, node=r)
-        if fresh:
-            # the source instance itself is never extended
-            muts = [c for c in astq.calls(fi.node) if isinstance(c.func, ast.Attribute) and c.func.attr in ("extend", "add", "update", "__setitem__") and astq.text(c.func.value) == "self"]
-            ctx.ob(R3, fi.qual, "does not mutate self", not muts, "; ".join(astq.text(x) for x in muts))
-
-    # ---------------- R4
-    for name in ("extend", "__ior__", "__or__", "__ror__"):
-        fi = m.method(HD, name)
-        bad = []
-        for node in astq.walk_fn(fi.node):
-            if isinstance(node, ast.Assign) and isinstance(node.targets[0], ast.Subscript) and astq.text(node.targets[0].value) in ("self", "result", "clone"):
-                bad.append(astq.text(node))
-            if isinstance(node, ast.Call) and isinstance(node.func, ast.Attribute) and node.func.attr in ("__setitem__", "update", "setdefault") and astq.text(node.func.value) in ("self", "result"):
-                bad.append(astq.text(node))
-        ctx.ob(R4, fi.qual, "inserts only through add()/extend()", not bad, "; ".join(bad))
-    ext = m.method(HD, "extend")
-    adds = [c for c in astq.calls(ext.node) if astq.call_text(c) == "self.add"]
-    ctx.sites(R4, len(adds), 4, "add() calls in extend (one per accepted source kind)")
-    si = m.method(HD, "__setitem__")
-    stores = [x for x in astq.walk_fn(si.node) if isinstance(x, ast.Assign) and isinstance(x.targets[0], ast.Subscript) and astq.is_self_attr(x.targets[0].value, sf)]
-    ctx.sites(R4, len(stores), 1, "store in __setitem__")
-    for sn in stores:
-        v = sn.value
-        ok = isinstance(v, ast.List) and len(v.elts) == 2 and [astq.text(e) for e in v.elts] == si.params()[:2]
-        ctx.ob(R4, si.qual, "item assignment replaces all previous values with [name, value]", ok, astq.text(sn), node=sn)
-    ad = m.method(HD, "add")
-    app = [c for c in astq.calls(ad.node) if isinstance(c.func, ast.Attribute) and c.func.attr == "append"]
-    ctx.sites(R4, len(app), 1, "append in add")
-    dl = m.method(HD, "__delitem__")
-    dels = [x for x in astq.walk_fn(dl.node) if isinstance(x, ast.Delete)]
-    ctx.ob(R4, dl.qual, "item deletion removes the whole entry", bool(dels) and all(isinstance(t, ast.Subscript) and astq.is_self_attr(t.value, sf) for x in dels for t in x.targets))
-
-
-_run_storage = run
-
-
-def run(ctx):  # noqa: F811
-    _run_storage(ctx)
-    from . import c16_effects
-
-    c16_effects.run(ctx)
+        hd = tuple("p:" + a.arg for a in fi.node.args.args[1:] if a.annotation is not None and "HTTPHeaderDict" in ast.unparse(a.annotation) and "|" not in ast.unparse(a.annotation) and "Union" not in ast.unparse(a.annotation))
+        try:
+            fi_, rows, rule = fx.rows_of(ctx, HD, name, sf, hd=hd)
+        except AnalysisError:
+            raise
+        keys = set()
+        for r in rows:
+            for k_ in r.st.ts:
+                if isinstance(k_, tuple) and len(k_) == 4 and k_[0] == "cmp" and k_[2] == "in" and k_[3] == "S":
+                    keys.add(k_[1])
+            for e in r.ev:
+                if e[0] in ("store", "del") and len(e) >= 2:
+                    keys.add(e[1])
+        for k_ in sorted(keys):
+            n_keyed += 1
+            ok = destruct(k_)[0] in ("lower", "casefold")
+            ctx.ob(R1, fi.qual, f"storage addressed by `{k_[:60]}`", ok,
+                   "" if ok else "the storage is addressed with a key that was not lower-cased: lookups under another casing miss it", node=fi.node)
+        seen = set()
+        for r in rows:
+            for e in r.ev:
+                if e[0] == "store" and len(e) >= 3:
+                    if ("store", e[2]) in seen:
+                        continue
+                    seen.add(("store", e[2]))
+                    n_store += 1
+                    ok = _fresh(e[2])
+                    ctx.ob(R2, fi.qual, f"stores `{e[2][:70]}`", ok,
+                           "" if ok else "a list object that exists elsewhere is stored: two header dicts (or a caller) would share and mutate it", witness=r.st.witness(), node=fi.node)
+                if e[0] in ("foreign-store", "foreign-storage-call") and ("f", e[:3]) not in seen:
+                    seen.add(("f", e[:3]))
+                    ctx.ob(R2, fi.qual, f"another instance's storage is changed: {e[:4]}", False, "another instance's storage is written or mutated directly: its lists can end up shared", witness=r.st.witness(), node=fi.node)
+                if e[0] in fx.MUTATORS and len(e) >= 2 and isinstance(e[1], str) and "S:" in e[1] and ("m", e[:2]) not in seen:
+                    seen.add(("m", e[:2]))
+                    ctx.ob(R2, fi.qual, f"a list of another instance is mutated: {e[:3]}", False, witness=r.st.witness(), node=fi.node)
+            # handing out a stored list: the returned / yielded term is an entry itself (not a slice / copy / element of it)
+            outs_ = [r.out[7:]] if r.out.startswith("return:") else []
+            outs_ += [e[1] for e in r.ev if e[0] == "yield"]
+            for t_ in outs_:
+                cands = [t_] + (list(destruct(t_)[1]) if destruct(t_)[0] == "tuple" else [])
+                for c_ in cands:
+                    op_, a_ = destruct(c_)
+                    leaked = op_ == "entry" or (op_ == "each" and a_ and destruct(a_[0])[0] == "values") or c_ == "S" or (op_ in ("values", "items") and a_ == ("S",))
+                    if leaked and ("leak", c_) not in seen:
+                        seen.add(("leak", c_))
+                        ctx.ob(R2, fi.qual, f"hands out `{c_[:60]}`", False, "a stored list (or the storage itself) is handed to the caller, who can mutate the header dict through it", witness=r.st.witness(), node=fi.node)
+        if name in ("copy", "__or__", "__ror__", "__ior__"):
+            for r in rows:
+                if not r.out.startswith("return:") or r.out == "return:NotImplemented":
+                    continue
+                res = r.out[7:]
+                if name == "__ior__":
+                    ok, why = res == "self", "in-place union must return self"
+                else:
+                    ok = destruct(res)[0] == "new"
+                    why = "the result is (or may be) an existing object: mutating the result would change its source"
+                    muts = [e for e in r.ev if e[0] == "call" and e[1] in ("self.extend", "self.add", "self.update", "self.__setitem__")]
+                    if muts:
+                        ok, why = False, f"the operand itself is changed: {muts[0][:3]}"
+                ctx.ob(R3, fi.qual, f"returns `{res[:50]}`", ok, "" if ok else why, witness=r.st.witness(), node=fi.node)
+        if name in ("extend", "__ior__", "__or__", "__ror__", "__init__"):
+            bad = None
+            for r in rows:
+                for e in r.ev:
+                    if e[0] in ("store", "setidx", "del", "storage-update", "storage-__setitem__") or (e[0] == "call" and e[1].split(".")[-1] in ("__setitem__", "update", "setdefault")):
+                        bad = (e, r)
+            ctx.ob(R4, fi.qual, "inserts only through add() / extend()", bad is None, "" if bad is None else f"{bad[0][:3]}: existing values of a repeated name would be replaced",
+                   witness=bad[1].st.witness() if bad else None, node=fi.node)
+    ctx.sites(R1, n_keyed, 8, "storage keys on effect rows")
+    ctx.sites(R2, n_store, 3, "stores into the storage dict on effect rows")
+    fx.run(ctx)
